@@ -52,6 +52,18 @@ Controlled ==
   \/ \E w \in Writers :
         \/ Store(w) /\ hist' = Append(hist, H("Store", 0, w, head + 1)) /\ held' = held
         \/ RLock(w) /\ hist' = Append(hist, H("RLock", 0, w, wr[w].r)) /\ held' = held
+        \* the writer's context is cancelled right after the write committed (Store; WCancel), or before it
+        \* (PutAborted); both count against the fault budget
+        \/ /\ "wcancel" \in Faults /\ nfault < MaxFaults /\ wr[w].pc = "idle" /\ head < MaxR
+           /\ head' = head + 1 /\ lo' = lo
+           /\ wr' = [wr EXCEPT ![w] = [pc |-> "stored", r |-> head + 1, todo |-> {}]]
+           /\ nfault' = nfault + 1
+           /\ hist' = Append(hist, H("StoreC", 0, w, head + 1)) /\ held' = held
+           /\ UNCHANGED <<lockW, cbs, ch, q, wk, item, pc, from, cur, snap, pos, sent, phase, cons, ctxd, err, why>>
+        \/ /\ "wcancel" \in Faults /\ nfault < MaxFaults /\ wr[w].pc = "idle" /\ head < MaxR /\ Backend = "bolt"
+           /\ nfault' = nfault + 1
+           /\ hist' = Append(hist, H("PutAborted", 0, w, head + 1)) /\ held' = held
+           /\ UNCHANGED <<head, lo, wr, lockW, cbs, ch, q, wk, item, pc, from, cur, snap, pos, sent, phase, cons, ctxd, err, why>>
         \/ SimDispatch(w)
   \/ \E s \in Streams :
         \/ \E f \in Froms : Open(s, f) /\ hist' = Append(hist, H("Open", s, 0, f)) /\ held' = held
@@ -62,12 +74,13 @@ Controlled ==
         \/ /\ held[s] /\ held' = [held EXCEPT ![s] = FALSE] /\ hist' = Append(hist, H("Release", s, 0, 0))
            /\ UNCHANGED vars
         \/ WorkCall(s) /\ hist' = Append(hist, H("Deliver", s, 0, item[s])) /\ held' = held
-        \/ \E k \in Faults \ {"resume"} : Fault(s, k) /\ hist' = Append(hist, H(k, s, 0, 0)) /\ held' = held
+        \/ \E k \in Faults \ {"resume", "wcancel"} : Fault(s, k) /\ hist' = Append(hist, H(k, s, 0, 0)) /\ held' = held
         \/ Resume(s) /\ hist' = Append(hist, H("resume", s, 0, 0)) /\ held' = held
 
 Terminal == ~EagerEnabled /\ ~ENABLED Controlled
 
 Tags == UNION {VerdictsL(sent[s], from[s], lo) : s \in Streams}
+        \cup (IF Mon_StoredDispatched THEN {} ELSE {"StoredButNeverDispatched"})
         \cup {m \in {"LiveComplete", "PutNeverWaitsOnConsumer", "OthersServed"} :
                 \/ m = "OthersServed" /\ ~Mon_ReplacementServed
                 \/ m = "LiveComplete" /\ ~Mon_LiveComplete
